@@ -2,6 +2,7 @@ package rules
 
 import (
 	"fmt"
+	"go/constant"
 	"go/token"
 	"go/types"
 	"sort"
@@ -631,6 +632,168 @@ func ruleC02f(c *Ctx) []*report.Result {
 	}
 	if instances == 0 {
 		r.Undecide("no function changes a formatting flag for a sub-rendering: the rule found nothing to check")
+	}
+	return []*report.Result{r}
+}
+
+func init() { register("C17.g", ruleC17g) }
+
+// Rule C17.g — transient printer states are left on every path.
+//
+// While the printer reports a bad verb it sets `erroring`, while it reports a
+// panic it sets `panicking`; the method dispatcher returns at once when
+// `erroring` is set ("don't call methods while reporting an error"), which
+// also skips the error hook, SafeFormatter and every Formatter/Stringer. The
+// states are meant to last for the report only. A path that sets one and
+// returns without clearing it leaves the rest of the call — every later
+// operand — without method dispatch. The fields are fmt's `erroring` and
+// `panicking`, confirmed to be boolean fields of the printer that one
+// function both sets and clears. For every function storing true into such a field: on every
+// path from that store to a normal return the field is stored false.
+func ruleC17g(c *Ctx) []*report.Result {
+	r := report.NewResult("C17.g", "transient states of the printer (boolean fields that one function sets and clears: erroring, panicking) are cleared on every path to a normal return of the function that sets them: no report of a bad verb or of a panic leaves the printer in a state in which the dispatcher skips methods, the error hook included, for the rest of the call", 2)
+	type key struct {
+		owner string
+		field int
+	}
+	boolField := func(addr ssa.Value) (key, ssa.Value, string, bool) {
+		fa, ok := addr.(*ssa.FieldAddr)
+		if !ok {
+			return key{}, nil, "", false
+		}
+		pt, ok := fa.X.Type().Underlying().(*types.Pointer)
+		if !ok || namedOf(pt.Elem()) != tPP {
+			return key{}, nil, "", false
+		}
+		st := pt.Elem().Underlying().(*types.Struct)
+		f := st.Field(fa.Field)
+		if b, ok := f.Type().Underlying().(*types.Basic); !ok || b.Kind() != types.Bool {
+			return key{}, nil, "", false
+		}
+		return key{tPP, fa.Field}, fa.X, f.Name(), true
+	}
+	constBoolOf := func(v ssa.Value) (bool, bool) {
+		k, ok := v.(*ssa.Const)
+		if !ok || k.Value == nil || k.Value.Kind() != constant.Bool {
+			return false, false
+		}
+		return constant.BoolVal(k.Value), true
+	}
+	type site struct {
+		fn    *ssa.Function
+		st    *ssa.Store
+		root  ssa.Value
+		name  string
+		value bool
+	}
+	byField := map[key][]site{}
+	for _, fn := range c.P.ModuleFunctions() {
+		if pkgPathOf(fn) != pkgRfmt {
+			continue
+		}
+		for _, b := range fn.Blocks {
+			for _, ins := range b.Instrs {
+				st, ok := ins.(*ssa.Store)
+				if !ok {
+					continue
+				}
+				k, root, name, ok := boolField(st.Addr)
+				if !ok {
+					continue
+				}
+				if v, isC := constBoolOf(st.Val); isC {
+					byField[k] = append(byField[k], site{fn, st, root, name, v})
+				}
+			}
+		}
+	}
+	n := 0
+	for k, sites := range byField {
+		// transient: some function stores both true and false
+		both := map[*ssa.Function][2]bool{}
+		for _, s := range sites {
+			x := both[s.fn]
+			if s.value {
+				x[0] = true
+			} else {
+				x[1] = true
+			}
+			both[s.fn] = x
+		}
+		transient := false
+		for _, x := range both {
+			if x[0] && x[1] {
+				transient = true
+			}
+		}
+		// of these, the states that gate dispatch or re-raising: fmt's names
+		// (the imported code keeps them, Engine C holds it to them); a flag like
+		// goodArgNum is set and cleared per directive and gates nothing later
+		if !transient || (sites[0].name != "erroring" && sites[0].name != "panicking") {
+			continue
+		}
+		for _, s := range sites {
+			if !s.value {
+				continue
+			}
+			n++
+			construct := shortFn(s.fn.String()) + " / " + s.name + " cleared on every path"
+			// forward walk from the store
+			okAll := true
+			var badRet token.Pos
+			seen := map[*ssa.BasicBlock]bool{}
+			clears := func(x ssa.Instruction) bool {
+				st, ok := x.(*ssa.Store)
+				if !ok {
+					return false
+				}
+				k2, root2, _, ok := boolField(st.Addr)
+				if !ok || k2 != k || root2 != s.root {
+					return false
+				}
+				v, isC := constBoolOf(st.Val)
+				return isC && !v
+			}
+			var walk func(bb *ssa.BasicBlock, from int)
+			walk = func(bb *ssa.BasicBlock, from int) {
+				for i := from; i < len(bb.Instrs); i++ {
+					if clears(bb.Instrs[i]) {
+						return
+					}
+					if ret, isRet := bb.Instrs[i].(*ssa.Return); isRet {
+						okAll = false
+						badRet = ret.Pos()
+						return
+					}
+				}
+				for _, sb := range bb.Succs {
+					if !seen[sb] && sb != s.fn.Recover {
+						seen[sb] = true
+						walk(sb, 0)
+					}
+				}
+			}
+			blk := s.st.Block()
+			idx := 0
+			for i, x := range blk.Instrs {
+				if x == ssa.Instruction(s.st) {
+					idx = i
+				}
+			}
+			walk(blk, idx+1)
+			if okAll {
+				r.Ok(construct)
+			} else {
+				pos := c.P.Pos(badRet)
+				if pos == "" || pos == "?" {
+					pos = c.P.Pos(s.st.Pos())
+				}
+				r.Fail(construct, pos, "a path from the store of true at "+c.P.Pos(s.st.Pos())+" reaches a return without the state being cleared: for the rest of the call the dispatcher skips every method — SafeFormatter, the error hook, Formatter, Stringer — and later operands are printed by reflection", nil, "")
+			}
+		}
+	}
+	if n == 0 {
+		r.Undecide("no transient boolean state of the printer found (erroring / panicking were expected)")
 	}
 	return []*report.Result{r}
 }
